@@ -25,8 +25,8 @@ KINDS = ("earley", "rescaled", "cky", "earleylm", "rescaledlm", "ckylm", "boollm
 
 def cfgp():
     if TIER == "thorough":
-        return dict(depth=3, deep=4, ndeep=8, bfs_depth=2, hist_depth_small=3, long=(100, 300, 600, 1000), cky_long=520, max_states=8000)
-    return dict(depth=2, deep=3, ndeep=6, bfs_depth=1, hist_depth_small=2, long=(100, 600), cky_long=150, max_states=3000)
+        return dict(depth=3, deep=4, ndeep=8, bfs_depth=2, hist_depth_small=3, long=(100, 300, 600, 1000, 1500), cky_long=520, max_states=8000)
+    return dict(depth=2, deep=3, ndeep=6, bfs_depth=1, hist_depth_small=2, long=(100, 600, 1200), cky_long=150, max_states=3000)
 
 
 def init_worker(tier):
@@ -182,7 +182,9 @@ def norm(ans):
 def same(a, b):
     if isinstance(a, str) or isinstance(b, str):
         return a == b
-    (ta, va), (tb, vb) = a, b
+    if len(a) != len(b) or a[2:] != b[2:]:
+        return False  # optional structural part of an answer (e.g. the rule set kept by trim / cotrim)
+    (ta, va), (tb, vb) = a[:2], b[:2]
     if ta != tb:
         return False
     if ta == "chart":
@@ -380,7 +382,13 @@ def setup_cfg(rules, V):
             "truncate1": lambda: g.truncate_length(1),
             "unfold": lambda: g.unfold(*c),
         }[o]
-        return lang(guarded(f))
+        res = guarded(f)
+        ans = lang(res)
+        if o in ("trim", "cotrim") and not isinstance(res, str):
+            # these keep the names: the SET of rules kept is part of the answer (trim drops unreachable
+            # symbols, cotrim keeps them - the weighted language cannot tell them apart)
+            ans = ans + (tuple(sorted(repr((r.head, tuple(r.body))) for r in res.rules)),)
+        return ans
 
     def dump(g, depth=0):
         d = getattr(g, "__dict__", {})
